@@ -110,19 +110,19 @@ C03_OutputLengths == Done => \A ru \in BOOLEAN :
      /\ LengthsOk(EmitRhs(mi, lay, ru)) /\ LengthsOk(EmitMonitor(mi, lay, ru))
      /\ \A sc \in Schemes : LengthsOk(EmitScheme(mi, lay, ru, sc, {"x"}, DeltaAst))
 C01_RhsRefinesDen == Done => \A ii \in 1..Len(Inputs) :
-     StatesByName(EmitRhs(mi, lay, FALSE), Inputs[ii]) = DerivsByState(DenAll(mi, Inputs[ii]))
+     SameVals(StatesByName(EmitRhs(mi, lay, FALSE), Inputs[ii]), DerivsByState(DenAll(mi, Inputs[ii])))
 C04_MonitorRefinesDen == Done => \A ii \in 1..Len(Inputs) :
-     LET den == DenAll(mi, Inputs[ii]) IN MonByName(EmitMonitor(mi, lay, FALSE), Inputs[ii]) = [n \in mi.aN |-> den[n]]
+     LET den == DenAll(mi, Inputs[ii]) IN SameVals(MonByName(EmitMonitor(mi, lay, FALSE), Inputs[ii]), [n \in mi.aN |-> den[n]])
 C05_Euler == Done => \A ii \in 1..Len(Inputs) : \A ru \in BOOLEAN :
-     StatesByName(EmitScheme(mi, lay, ru, "explicit_euler", {}, DeltaAst), Inputs[ii]) = DenEuler(mi, Inputs[ii])
+     SameVals(StatesByName(EmitScheme(mi, lay, ru, "explicit_euler", {}, DeltaAst), Inputs[ii]), DenEuler(mi, Inputs[ii]))
 C06_GRL == Done => \A ii \in 1..Len(Inputs) : \A ru \in BOOLEAN :
-     StatesByName(EmitScheme(mi, lay, ru, "generalized_rush_larsen", {}, DeltaAst), Inputs[ii])
-       = DenGRL(mi, Inputs[ii], DeltaV, mi.sN)
+     SameVals(StatesByName(EmitScheme(mi, lay, ru, "generalized_rush_larsen", {}, DeltaAst), Inputs[ii]),
+       DenGRL(mi, Inputs[ii], DeltaV, mi.sN))
 C07_Hybrid == Done => \A ii \in 1..Len(Inputs) : \A stiff \in SUBSET {"x", "y", "foreign"} :
-     StatesByName(EmitScheme(mi, lay, FALSE, "hybrid_rush_larsen", stiff, DeltaAst), Inputs[ii])
-       = DenGRL(mi, Inputs[ii], DeltaV, stiff)
+     SameVals(StatesByName(EmitScheme(mi, lay, FALSE, "hybrid_rush_larsen", stiff, DeltaAst), Inputs[ii]),
+       DenGRL(mi, Inputs[ii], DeltaV, stiff))
 C12_SameResults == Done => \A ii \in 1..Len(Inputs) :
-     StatesByName(EmitRhs(mi, lay, TRUE), Inputs[ii]) = StatesByName(EmitRhs(mi, lay, FALSE), Inputs[ii])
+     SameVals(StatesByName(EmitRhs(mi, lay, TRUE), Inputs[ii]), StatesByName(EmitRhs(mi, lay, FALSE), Inputs[ii]))
 C12_NoUseBeforeDef == Done => \A ru \in BOOLEAN :
      /\ NoUseBeforeDef(EmitRhs(mi, lay, ru)) /\ NoUseBeforeDef(EmitMonitor(mi, lay, ru))
      /\ \A sc \in Schemes : NoUseBeforeDef(EmitScheme(mi, lay, ru, sc, {"x"}, DeltaAst))
